@@ -16,5 +16,6 @@ def run(ctx, rep):
     walkrules.check_other_pos(ctx, rep)
     walkrules.check_walk(ctx, rep)
     walkrules.check_next_pos(ctx, rep)
+    walkrules.check_vertex_cycle(ctx, rep)
     walkrules.check_mark(ctx, rep)
     orderrules.check_order_events(ctx, rep, rule='T-walk-order')
